@@ -643,3 +643,147 @@ func slotIsTheRecordedSlot(r *an.Run, rule string) {
 	r.Count("slot assignments", n)
 	r.Min("slot assignments", 1)
 }
+
+// recursiveComparisonsMemoised (C08-R14, after F16): diff.Difference calls its
+// comparison callback for the same pair of indexes several times. A callback
+// whose answer itself runs Difference on the lists below the two elements
+// (comparing syntax trees does) multiplies the work at every level of
+// nesting — exponential in the depth of the file. So such a callback must
+// look the pair up first and make the recursive comparison only on a miss,
+// storing the answer: the recursive call is reachable only through the
+// "not yet compared" edge of a test on a table indexed by both parameters.
+func recursiveComparisonsMemoised(r *an.Run, rule string) {
+	r.Rule(rule)
+	isDifference := func(c ssa.CallInstruction) bool {
+		sc := an.StaticCallee(c)
+		return sc != nil && strings.HasSuffix(short(sc), "internal/diff.Difference")
+	}
+	// functions from which Difference is reachable (VTA)
+	reaches := map[*ssa.Function]bool{}
+	var diffFn *ssa.Function
+	for _, f := range r.P.ModuleFuncs() {
+		for _, c := range an.Calls(f) {
+			if isDifference(c) {
+				diffFn = an.StaticCallee(c)
+			}
+		}
+	}
+	if diffFn == nil {
+		r.Undecided("anchor|diff.Difference", 0, "no call to internal/diff.Difference found")
+		return
+	}
+	for _, f := range r.P.ModuleFuncs() {
+		if f.Blocks != nil && r.P.ReachableVTA(f)[diffFn] {
+			reaches[f] = true
+		}
+	}
+	n := 0
+	for _, f := range r.P.ModuleFuncs() {
+		for _, c := range an.Calls(f) {
+			if !isDifference(c) {
+				continue
+			}
+			var g *ssa.Function
+			cb := c.Common().Args[2]
+			for {
+				if ct, ok := cb.(*ssa.ChangeType); ok {
+					cb = ct.X
+					continue
+				}
+				break
+			}
+			switch v := cb.(type) {
+			case *ssa.MakeClosure:
+				g, _ = v.Fn.(*ssa.Function)
+			case *ssa.Function:
+				g = v
+			}
+			if g == nil || g.Blocks == nil {
+				r.Undecided(short(f)+"|callback", c.Pos(), "the comparison handed to diff.Difference is not a function literal or a named function")
+				continue
+			}
+			n++
+			key := short(g) + "|compared-once"
+			var rec []ssa.CallInstruction
+			for _, ic := range an.Calls(g) {
+				if sc := an.StaticCallee(ic); sc != nil && reaches[sc] {
+					rec = append(rec, ic)
+				}
+			}
+			if len(rec) == 0 {
+				r.Pass(key, c.Pos(), "the comparison does not itself diff lists: its cost does not multiply with nesting")
+				continue
+			}
+			// a lookup keyed by both parameters
+			fromBoth := func(v ssa.Value) bool {
+				a, b := false, false
+				for x := range an.BackSlice(v, an.SliceOpts{ThroughMemory: true}) {
+					if len(g.Params) >= 2 {
+						if x == ssa.Value(g.Params[0]) {
+							a = true
+						}
+						if x == ssa.Value(g.Params[1]) {
+							b = true
+						}
+					}
+				}
+				return a && b
+			}
+			var missEdges []an.CtrlEdge
+			for _, b := range g.Blocks {
+				iff, ok := b.Instrs[len(b.Instrs)-1].(*ssa.If)
+				if !ok {
+					continue
+				}
+				cond, pos := an.StripNot(iff.Cond)
+				found := false
+				switch x := cond.(type) {
+				case *ssa.Extract: // v, ok := table[key]
+					if lk, ok := x.Tuple.(*ssa.Lookup); ok && lk.CommaOk && x.Index == 1 && fromBoth(lk.Index) {
+						found = true
+					}
+				case *ssa.UnOp: // done[i][j]
+					if ia, ok := x.X.(*ssa.IndexAddr); ok && fromBoth(ia) {
+						found = true
+					}
+				case *ssa.Lookup: // set[key] of a map[K]bool
+					if fromBoth(x.Index) {
+						found = true
+					}
+				}
+				if !found {
+					continue
+				}
+				// the edge taken when the pair was NOT found
+				succ := 1
+				if !pos {
+					succ = 0
+				}
+				missEdges = append(missEdges, an.CtrlEdge{Block: b, Succ: succ})
+			}
+			good := len(missEdges) > 0
+			for _, ic := range rec {
+				if !good || !unreachableWithout(ic.Block(), missEdges) {
+					good = false
+				}
+			}
+			// and the answer is stored under the same kind of key
+			stored := false
+			for _, in := range an.StoresIn(g) {
+				switch x := in.(type) {
+				case *ssa.MapUpdate:
+					if fromBoth(x.Key) {
+						stored = true
+					}
+				case *ssa.Store:
+					if ia, ok := x.Addr.(*ssa.IndexAddr); ok && fromBoth(ia) {
+						stored = true
+					}
+				}
+			}
+			r.Check(good && stored, key, c.Pos(), "the comparison handed to diff.Difference, which itself diffs the lists below the two elements (%s), looks the pair up first and compares only on a miss, storing the answer: Difference asks about the same pair several times, and recomputing doubles the work at every level of nesting", an.TrimModule(an.CalleeName(rec[0])))
+		}
+	}
+	r.Count("comparison callbacks of diff.Difference", n)
+	r.Min("comparison callbacks of diff.Difference", 2)
+}
